@@ -402,6 +402,11 @@ func (e *Enc) applyContract(fr *Frame, ct *FuncContract, fn *ssa.Function, sig *
 		t := e.evalBool(sc, r.E)
 		e.obligeAssume("pre@call", who+":"+clabel(r), guard, t, r.Src, pos)
 	}
+	// `assume` clauses of a callee contract are invariants of its (ghost) model: taken for granted
+	// at every call site instead of being demanded from the caller
+	for _, a := range ct.Assume {
+		e.assert(Implies(guard, e.evalBool(sc, a.E)))
+	}
 	pre := st.clone()
 	oldVars := map[string]Val{}
 	for k, v := range sc.vars {
